@@ -93,15 +93,12 @@ def run(ctx):
     if pf is not None:
         E = effects.get(fx)
         pi = [i for i in range(1, pf.arg_count + 1) if pf.locals[i]['ty'].replace(' ', '') == '&mutparse::ParseInfo']
-        sws = [s for s in q.switches_on(pf, lambda d: d[0] == 'discr') if 'OldPalette04' in _c10.switch_variants(pf, s).values()]
-        if len(sws) == 1 and pi:
-            sw = sws[0]
-            names = _c10.switch_variants(pf, sw)
-            tm = pf.blocks[sw]['term']
+        arms = common.dispatch_arms(pf)
+        if arms is None:
+            ctx.fail(pf.name + '|N3|no-dispatch', 'no ChunkType dispatch found in parse_frame')
+        if arms is not None and pi:
             seen = 0
-            for v, s in tm['targets']:
-                kind = names.get(v)
-                reg = q.edge_region(pf, sw, s)
+            for kind, s, reg, sw in arms:
                 ws = [w for w in E.writes(pf, blocks=reg) if effects.root_of(w[0])[0] == pi[0]]
                 paths = sorted({tuple(effects.root_of(w[0])[1]) for w in ws})
                 if kind in ('CelExtra', 'Mask', 'Path'):
